@@ -5,8 +5,13 @@ every key column of a multi-key cycler is a function of the row label, and the c
 same array transformation to every key column).  A combined cycler is the list of its points, a
 point being the list of the labels of the axes it was built from (`List (List α)`).
 
+The slice offsets and the concatenation order are read from the current source by the extractor
+(harness/props/C26.py -> SnakeGenerated.lean); the model and all C26 theorems depend on them.
+
 No Mathlib here: this file is loaded by `lean --run Drivers/C26.lean`.
 -/
+import BlueskyVerif.Pure.SnakeGenerated
+
 namespace BlueskyVerif.Pure.Snake
 
 /-- `np.prod(lengths)` (empty product = 1). -/
@@ -47,10 +52,10 @@ if snake: v = np.concatenate([v, v[::-1]])
 v2 = np.tile(np.repeat(v, num_repeats), int(num_tiles)); expanded = v2[:total_length]
 ``` -/
 def snakeColumn (lengths : List Nat) (i : Nat) (v : List α) (snake : Bool) : List α :=
-  let numTiles := prod (lengths.take i)
-  let numRepeats := prod (lengths.drop (i + 1))
+  let numTiles := prod (lengths.take (i + Gen.tilesUpTo))
+  let numRepeats := prod (lengths.drop (i + Gen.repeatsFrom))
   let total := prod lengths
-  let v' := if snake then v ++ v.reverse else v
+  let v' := if snake then (if Gen.forwardFirst then v ++ v.reverse else v.reverse ++ v) else v
   (tile numTiles (repeatEach numRepeats v')).take total
 
 /-- the loop, accumulating `new_cyclers` (here: the expanded label columns) -/
@@ -65,12 +70,15 @@ inductive Res (α : Type) where
   | valueError
   | typeError
   | ok (points : List (List α))
-deriving Repr
+deriving Repr, DecidableEq
+
+/-- `not any(snake_booleans[1:])` (offset from the source) -/
+def noSnaking (flags : List Bool) : Bool := !(flags.drop Gen.shortcutFlagsFrom).any id
 
 /-- `snake_cyclers(cyclers, snake_booleans)`. -/
 def snakeCyclers (cyclers : List (List α)) (flags : List Bool) : Res α :=
   if cyclers.length ≠ flags.length then .valueError          -- raise ValueError
-  else if !(flags.drop 1).any id then                          -- if not any(snake_booleans[1:])
+  else if noSnaking flags then                                                       -- if not any(snake_booleans[1:])
     match reduce1 mulC (cyclers.map cyc) with                  --   return reduce(operator.mul, cyclers)
     | none => .typeError
     | some r => .ok r
